@@ -294,10 +294,18 @@ func RunC17(t *testing.T, seed uint64) *Result {
 			}
 		}
 	})
-	res.Viol = viol
 	res.Judged = map[string]int{"C17": judged}
 	res.Stats.Faults = map[string]int{}
 	res.Stats.Probes = map[string]int{"c17_" + sc.Kind: 1}
+	if seed%25 == 0 {
+		// the pure clause, outside the claimed level: generated inputs, not a simulation
+		checked, out := PureBackoffCheck(seed, 400)
+		res.Stats.Probes["unsimulated_pure_clause_values"] = checked
+		for _, b := range out {
+			bad("calculate-backoff-outside-bounds", b)
+		}
+	}
+	res.Viol = viol
 	res.Stats.InterleaveH = seed*2654435761 ^ uint64(len(sc.Script))<<40 ^ uint64(sc.MaxAttempts)<<32 ^ uint64(sc.Threshold)<<28
 	res.Stats.Terms = 1
 	res.LogHash = fmt.Sprintf("%016x", res.Stats.InterleaveH)
